@@ -41,6 +41,7 @@ func runRTPScenario(s *Scenario) *failure {
 	config.VerifSet("", false, true, "", 0)
 	streamSeq++
 	path := fmt.Sprintf("/c08/rtp%d", streamSeq)
+	mxBefore := lastNewMuxer.Load()
 	st := media.NewStream(path, s.sdp())
 	if st.FlvTypeFlags() == 0 {
 		return failf("stream-setup", "media.NewStream did not create an FLV muxer for SDP:\n%s", s.sdp())
@@ -94,7 +95,9 @@ func runRTPScenario(s *Scenario) *failure {
 	// the unit sequence on the wire: parameter sets, then IDR/IRAP, P, P, parameter sets again, IDR, P
 	s.Frames = nil
 	var wire [][]byte
+	audioAt := map[int]Frame{}
 	started := ready()
+	started0 := started
 	push := func(f Frame, name string) {
 		wire = append(wire, s.payload(f))
 		if name != "" {
@@ -116,15 +119,37 @@ func runRTPScenario(s *Scenario) *failure {
 	slice := func(typ, size int, seed uint32) Frame {
 		return Frame{NalType: typ, NRI: 2, Size: min + size, Seed: seed}
 	}
+	// audio: s.AudioLead AUs go out before anything else (they reach the muxer
+	// ahead of the in-band parameter sets; whether they are dropped or kept is
+	// read off the tag count below), later AUs follow each key frame
+	var lead []Frame
+	au := func(size int, seed uint32) Frame { return Frame{Audio: true, Size: size, Seed: seed} }
+	if s.Audio {
+		for i := 0; i < s.AudioLead; i++ {
+			f := au(100+i, uint32(100+i))
+			lead = append(lead, f)
+			wire = append(wire, nil) // placeholder: sent on the audio channel
+			audioAt[len(wire)-1] = f
+		}
+	}
 	for round := 0; round < 2; round++ {
 		for _, ib := range inband {
 			push(s.nalFrame(ib.nal), ib.name)
 		}
 		push(slice(keyType, 700+round, uint32(round)), "")
+		if s.Audio {
+			f := au(200+round, uint32(200+round))
+			wire = append(wire, nil)
+			audioAt[len(wire)-1] = f
+			s.Frames = append(s.Frames, f) // after a key frame the metadata is ready in every variant
+		}
 		push(slice(pType, 90, uint32(10+round)), "")
 		push(slice(pType, 1200, uint32(20+round)), "")
 	}
 
+	if !waitFor(func() bool { return lastNewMuxer.Load() != mxBefore }) {
+		return failf("stream-setup", "the stream's FLV muxer goroutine did not start")
+	}
 	c0 := &httpClient{hdr: http.Header{}, done: make(chan struct{})}
 	go func() {
 		defer close(c0.done)
@@ -133,8 +158,27 @@ func runRTPScenario(s *Scenario) *failure {
 	if !waitFor(func() bool { return st.ConsumerCount() >= 1 }) {
 		return failf("stream-setup", "ConsumeByHTTP did not attach")
 	}
+	mx := lastNewMuxer.Load() // the stream's flv.Muxer (this test runs alone)
 	seq, ts := uint16(65530), uint32(4000000000)
+	aseq, ats := uint16(7), uint32(123456)
 	for i, nal := range wire {
+		if f, ok := audioAt[i]; ok {
+			p := rtppack.Sequence([][]byte{rtppack.AacHbr([][]byte{s.payload(f)})}, true, 97, ats, aseq, 0xA08)[0]
+			if err := st.WriteRtpPacket(rtppack.ToIpchub(rtp.ChannelAudio, p.Marshal())); err != nil {
+				return failf("stream-setup", "WriteRtpPacket %d: %v", i, err)
+			}
+			aseq++
+			ats += 1024
+			if i < len(lead) {
+				// let the leading AU get through the demuxer and the muxer before the
+				// parameter sets are sent (k+1 visits of the pop point = k frames taken)
+				n := i + 1
+				if !waitFor(func() bool { return popCount(mx) >= n+1 }) {
+					return failf("tag-count", "the stream's FLV muxer did not take leading audio frame %d", i)
+				}
+			}
+			continue
+		}
 		for _, p := range rtppack.Sequence([][]byte{nal}, true, 96, ts, seq, 0xC08) {
 			if err := st.WriteRtpPacket(rtppack.ToIpchub(rtp.ChannelVideo, p.Marshal())); err != nil {
 				return failf("stream-setup", "WriteRtpPacket %d: %v", i, err)
@@ -143,7 +187,23 @@ func runRTPScenario(s *Scenario) *failure {
 		}
 		ts += 3600
 	}
-	want := 2 + len(s.Frames)
+	// all units converted: the muxer has taken every frame the depacketisers forwarded
+	forwarded := len(s.Frames)
+	if started0 {
+		forwarded += len(lead) // complete SDP: the leading AUs are ordinary frames
+		s.Frames = append(append([]Frame(nil), lead...), s.Frames...)
+	} else {
+		forwarded += len(lead)
+	}
+	if !waitFor(func() bool { return popCount(mx) >= forwarded+1 }) {
+		return failf("tag-count", "pipeline stalled for 30 s: the FLV muxer took %d of %d frames", popCount(mx)-1, forwarded)
+	}
+	want := 1 + s.configCount() + len(s.Frames)
+	if !started0 && len(lead) > 0 && c0.tagCount() == want+len(lead) {
+		// the leading AUs were kept: they are owed after the configuration tags
+		s.Frames = append(append([]Frame(nil), lead...), s.Frames...)
+		want += len(lead)
+	}
 	if !waitFor(func() bool { return c0.tagCount() >= want }) {
 		return failf("tag-count", "pipeline stalled for 30 s: the client received %d of %d tags (%d units sent, %d owed after the metadata became ready)", c0.tagCount(), want, len(wire), len(s.Frames))
 	}
@@ -180,12 +240,17 @@ func TestStreamLateParamSetsRTP(t *testing.T) {
 		}
 		for ps := 0; ps < sets; ps++ {
 			for _, late := range append([]string{""}, lateKinds...) {
-				s := &Scenario{Layer: "rtp", Codec: codecName, PS: ps, Late: late, Base: "rtp"}
-				if fl := runRTPScenario(s); fl != nil {
-					evid.Violation(t, "rtp-"+fl.Check, s, "%s — %s", s.summary(), fl.Msg)
+				for _, lead := range []int{-1, 0, 2} { // -1: no audio; 0: audio after the first key frame only; 2: two AUs ahead of everything
+					s := &Scenario{Layer: "rtp", Codec: codecName, PS: ps, ASC: ps, Late: late, Base: "rtp", Audio: lead >= 0}
+					if lead > 0 {
+						s.AudioLead = lead
+					}
+					if fl := runRTPScenario(s); fl != nil {
+						evid.Violation(t, "rtp-"+fl.Check, s, "%s — %s", s.summary(), fl.Msg)
+					}
+					n++
+					evid.Class(fmt.Sprintf("layer:rtp/%s/late=%s/audio-lead=%d", codecName, late, lead))
 				}
-				n++
-				evid.Class("layer:rtp/" + codecName + "/late=" + late)
 			}
 		}
 	}
